@@ -1848,8 +1848,10 @@ fn plan(def: &PDef, enc: Option<&Enc>, g: &Generated, thorough: bool) -> Vec<Seg
                     std::process::exit(2)
                 });
                 for k in KINDS {
-                    if k == b'c' && def.slow() && !thorough {
-                        continue; // quick tier: no window x truncation combinations for the 20-50 ms-per-call parsers
+                    // window x truncation combinations of the 20-50 ms-per-call parsers: not in the quick tier;
+                    // thorough: for the decoders with an expected-length argument under "exact" and "p31" only
+                    if k == b'c' && def.slow() && (!thorough || (def.olen && variant != "exact" && variant != "p31")) {
+                        continue;
                     }
                     let n = cd.by_kind.get(&k).map(|v| v.len()).unwrap_or(0);
                     segs.push(Seg { variant, kind: k, start: pos, count: n, len: l, combo: cd.combo.clone() });
